@@ -402,6 +402,132 @@ def _logical_eq(a, b):
     return a[1] == b[1]
 
 
+def append_chunk(args):
+    """The case's frame arrives as an APPEND (write(append=True), simple and hive) to a file that already holds the same
+    column without missing cells, written with the same options: the schema - REQUIRED or OPTIONAL - is then the existing
+    file's, not one derived from the frame.  The contract is the same as for a first write: the append raises, or the file
+    is valid and an independent reader finds base rows + the case's cell table."""
+    jid, cases, base = args
+    fp = use_repo()
+    import pandas as pd
+    import numpy as np
+    out = {"jid": jid, "viol": [], "evals": 0, "raised": 0}
+    d = os.path.join(base, "ap%d" % jid)
+    shutil.rmtree(d, ignore_errors=True)
+    os.makedirs(d)
+    try:
+        for ci, case in enumerate(cases):
+            cls, cells = case["cls"], case["cells"]
+            sig = dict(case_sig(case), via="append")
+            try:
+                ser = CZ.series(cls, cells)
+                base_cells = [3 if c < 0 else c for c in cells]
+                bser = CZ.series(cls, base_cells)
+                if cls.startswith("cat_"):
+                    cats = list(dict.fromkeys(list(bser.cat.categories) + list(ser.cat.categories)))
+                    bser = pd.Series(pd.Categorical(list(bser.astype(object)), categories=cats, ordered=bool(ser.cat.ordered)), name="x")
+                    ser = pd.Series(pd.Categorical(list(ser.astype(object)), categories=cats, ordered=bool(ser.cat.ordered)), name="x")
+            except Exception:   # noqa
+                continue
+            has_nulls = {"true": True, "false": False, "infer": "infer"}[case["mode"]]
+            for scheme in ("simple", "hive"):
+                path = os.path.join(d, "a%d-%s" % (ci, scheme))
+                n = len(cells)
+                z0 = pd.Series(np.arange(n, dtype="int64") * 7 + 91000, name="z")
+                try:
+                    fp.write(path, pd.DataFrame({"x": bser, "z": z0}), has_nulls=has_nulls, write_index=False, file_scheme=scheme,
+                             stats=True)
+                except BaseException:  # noqa
+                    continue
+                out["evals"] += 1
+                try:
+                    fp.write(path, pd.DataFrame({"x": ser, "z": z0 + 7 * n}), has_nulls=has_nulls, write_index=False,
+                             file_scheme=scheme, append=True, stats=True)
+                except BaseException:  # noqa
+                    out["raised"] += 1          # "or else the write raises" (what a refused append leaves behind is C18's)
+                    shutil.rmtree(path, ignore_errors=True) if os.path.isdir(path) else os.remove(path)
+                    continue
+                files = {}
+                if scheme == "simple":
+                    files[""] = open(path, "rb").read()
+                else:
+                    for root, _, fns in os.walk(path):
+                        for fn in fns:
+                            files[os.path.relpath(os.path.join(root, fn), path)] = open(os.path.join(root, fn), "rb").read()
+                got = []
+                bad = False
+                for rel in sorted(k for k in files if not k.endswith("metadata")):
+                    fv = PR.read_file(files[rel], strict=True, other_files=files)
+                    probs = [p for p in fv.problems if KNOWN_THRIFT not in p and not p.startswith("E-STATS")]
+                    for p in sorted({p.split(":")[0].split()[0] for p in probs}):
+                        out["viol"].append(("C02", dict(sig, what="structural problem reported by the independent reader", code=p,
+                                                        scheme=scheme), ci))
+                        bad = True
+                    if probs:
+                        continue
+                    try:
+                        leaf = fv.leaf("x")
+                        zs = fv.column("z")
+                        for pv, zv in zip(fv.column("x"), zs):
+                            got.append((zv, leaf, pv))
+                    except Exception as e:  # noqa
+                        out["viol"].append(("C02", dict(sig, what="independent reader cannot decode the values",
+                                                        exc=type(e).__name__, scheme=scheme), ci))
+                        bad = True
+                if not bad:
+                    got.sort(key=lambda t: t[0])
+                    want = base_cells + list(cells)
+                    if len(got) != len(want):
+                        out["viol"].append(("C02", dict(sig, what="independent reader finds a different number of rows",
+                                                        scheme=scheme), ci))
+                    else:
+                        for (zv, leaf, pv), w in zip(got, want):
+                            if w == CZ.NULL:
+                                ok = pv is None
+                            elif w == CZ.SENT:
+                                ok = pv is not None and _is_sentinel(leaf, pv)
+                            else:
+                                ok = pv is not None and _logical_eq(CZ.logical_from_physical(leaf, pv), CZ.expected_logical(cls, w))
+                            if not ok:
+                                out["viol"].append(("C02", dict(sig, what="independent reader decodes a different "
+                                                                + ("NULL/NaN state" if w < 0 or pv is None else "value"),
+                                                                scheme=scheme), ci))
+                                break
+                # C01: the library's own read of base + appended rows
+                try:
+                    gx = list(fp.ParquetFile(path).to_pandas()["x"].astype(object))
+                    wantc = base_cells + list(cells)
+                    if len(gx) != len(wantc) or any(not CZ.cell_equal(cls, g, w) for g, w in zip(gx, wantc)):
+                        out["viol"].append(("C01", dict(sig, what="cells changed on read-back of an appended frame", scheme=scheme), ci))
+                except BaseException as e:  # noqa
+                    out["viol"].append(("C01", dict(sig, what="file appended to without error cannot be read back",
+                                                    exc=type(e).__name__, scheme=scheme), ci))
+                shutil.rmtree(path, ignore_errors=True) if os.path.isdir(path) else os.remove(path)
+    except BaseException:  # noqa
+        out["error"] = traceback.format_exc()
+    finally:
+        shutil.rmtree(d, ignore_errors=True)
+    return out
+
+
+def run_appends(cases, work, chunk=60):
+    """the cases that hold a missing cell, on a stride, replayed as appends"""
+    sel = [c for c in cases if any(x < 0 for x in c["cells"]) and c.get("opt", "default") == "default"
+           and c.get("codec", "none") == "none" and c["rgo"] == 0 and c["n"] <= 9]
+    seen, pick = set(), []
+    for c in sel:
+        k = (c["cls"], c["mode"], c["nullpat"], c["v"])
+        if k not in seen:
+            seen.add(k)
+            pick.append(c)
+    base = os.path.join(work, "cwappend")
+    os.makedirs(base, exist_ok=True)
+    jobs = [(i, pick[c0:c0 + chunk], base) for i, c0 in enumerate(range(0, len(pick), chunk))]
+    res = pmap(append_chunk, jobs, job_timeout=900)
+    shutil.rmtree(base, ignore_errors=True)
+    return jobs, res
+
+
 def run_cases(cases, work, chunk=120):
     base = os.path.join(work, "cwreplay-%d" % len(os.listdir(work)))
     os.makedirs(base)
